@@ -178,7 +178,7 @@ def brOf (s : MState) (anyMulti anyDelay : Bool) : String :=
 partial def runHist (univ : List Cid) (thr : Int) :
     MState → List Op → List Obs → Bool → Bool → List Obs → Bool → Bool → (List Obs × Bool × Bool × Bool × Bool × MState)
   | s, op :: ops, py :: pys, clean, wf, acc, ok, implok =>
-    let clean' := clean && cleanOp s op
+    let clean' := clean
     let wf' := wf && wfOp s op
     let (s', st) := step py.ord s op
     let mo := modelObs univ thr s' st py
